@@ -91,7 +91,9 @@ type Result struct {
 	P       *Parsed
 }
 
-func reject(f string, a ...any) Result { return Result{Verdict: MustReject, Reason: fmt.Sprintf(f, a...)} }
+func reject(f string, a ...any) Result {
+	return Result{Verdict: MustReject, Reason: fmt.Sprintf(f, a...)}
+}
 func unspec(f string, a ...any) Result {
 	return Result{Verdict: Unspecified, Reason: fmt.Sprintf(f, a...)}
 }
@@ -411,23 +413,6 @@ func Strict(b []byte) (*Parsed, error) {
 	}
 	if len(used) != len(spans) {
 		return p, fmt.Errorf("%d responses in the responses array, %d referenced by the index", len(spans), len(used))
-	}
-	if p.SigSection != nil {
-		// vouched subsets carry embedded CBOR ("signed"): must be canonical too
-		if p.SigSection.Major == 4 && len(p.SigSection.Kids) == 2 && p.SigSection.Kids[1].Major == 4 {
-			for _, vs := range p.SigSection.Kids[1].Kids {
-				if vs.Major != 5 {
-					continue
-				}
-				for i := 0; i+1 < len(vs.Kids); i += 2 {
-					if string(vs.Kids[i].Content) == "signed" && vs.Kids[i+1].Major == 2 {
-						if err := refcbor.CheckDeterministic(vs.Kids[i+1].Content, refcbor.Profile{}); err != nil {
-							return p, fmt.Errorf("signed subset not canonical: %v", err)
-						}
-					}
-				}
-			}
-		}
 	}
 	return p, nil
 }
